@@ -292,7 +292,7 @@ def domain(prop, depth=2):
         return list(enum_cls)[:4] if enum_cls is not None else []
     if isinstance(prop, xs._AttributeListBase):
         if cname == 'DecimalListAttributeProperty':
-            return [[Decimal('1.5'), Decimal('2')], []]
+            return [[Decimal('1.5'), Decimal('2')], [Decimal('1E+3'), Decimal('0.0000001'), Decimal('-0.5'), Decimal('0')], []]
         return [['a', 'b'], ['a'], []]
     if cname in ('HandleAttributeProperty', 'HandleRefAttributeProperty', 'LocalizedTextRefAttributeProperty'):
         return ['h.1', 'x']
